@@ -948,6 +948,8 @@ pub enum Api {
     PerRecord,
     PerRecordInit,
     ReadParallel,
+    /// the generic `parallel_records` function
+    ParallelRecords,
 }
 
 #[derive(Clone, Debug, PartialEq, Eq)]
@@ -1217,6 +1219,41 @@ macro_rules! real_impl {
                     s.set_inits = set_inits.load(Ordering::SeqCst);
                     s.rec_inits = rec_inits.load(Ordering::SeqCst);
                     r
+                }
+                Api::ParallelRecords => {
+                    let reader = $modname::Reader::with_capacity(src, cap);
+                    parallel::parallel_records(
+                        reader,
+                        sc.threads,
+                        sc.queue,
+                        |rec, out: &mut RecOut| {
+                            closure_delay(1);
+                            if let Some(i) = id_index(rec.head()) {
+                                stall_if_target(i as u64);
+                            }
+                            out.hash = hash(&rec);
+                            out.uses += 1;
+                        },
+                        |rec, out: &RecOut| {
+                            let mut s = seen.borrow_mut();
+                            if LEAN.load(Ordering::Relaxed) {
+                                s.lean_recs += 1;
+                                if out.hash != hash(&rec) {
+                                    s.recs.push((id_index(rec.head()), false));
+                                }
+                            } else {
+                                s.recs.push((id_index(rec.head()), out.hash == hash(&rec)));
+                            }
+                            closure_delay(2);
+                            if Some(s.recs.len()) == stop {
+                                s.stopped_early = true;
+                                Some(())
+                            } else {
+                                None
+                            }
+                        },
+                    )
+                    .map_err(RealErr::from)
                 }
                 Api::ReadParallel => {
                     let reader = $modname::Reader::with_capacity(src, cap);
@@ -1497,9 +1534,10 @@ pub fn gen_real(rng: &mut Rng, miri: bool, tag: u64, big: bool) -> RealScenario 
     let n_valid = if fasta_invalid { 0 } else { invalid_at.unwrap_or(n) };
     let has_error = fasta_invalid || invalid_at.is_some();
     let cap = if big { *rng.pick(&[256usize, 1024, 4096]) } else { *rng.pick(&[3usize, 16, 64, 200, 256, 1000]) };
-    let api = match rng.below(5) {
+    let api = match rng.below(6) {
         0 | 1 => Api::PerRecord,
         2 | 3 => Api::PerRecordInit,
+        4 => Api::ParallelRecords,
         _ => Api::ReadParallel,
     };
     let queue = 1 + rng.below(4);
